@@ -1,4 +1,4 @@
-From Tetl Require Import Lib.Base C11.Model C11.Spec C11.ModelCal C11.SpecCal.
+From Tetl Require Import Lib.Base C11.Model C11.Spec C11.ModelCal C11.SpecCal C11.ModelRev.
 Require Extraction.
 Require Import ExtrOcamlBasic.
 Extraction Language OCaml.
@@ -20,4 +20,6 @@ Extraction "C11_model.ml" wire_anchor
   ymdl_plus_years_m ymdl_minus_years_m ymwd_ok_m ymwd_from_days_m ymwd_to_days_m ymwd_plus_months_m
   ymwd_minus_months_m ymwd_plus_years_m ymwd_minus_years_m ymwdl_ok_m ymwdl_to_days_m
   days_spec year_ok_spec month_ok_spec day_ok_spec weekday_ok_spec cmp6_spec month_minus_months_spec
-  md_exists wdi_ok_spec ymd_plus_months_spec ymd_plus_years_spec ymwd_exists ymwd_days_spec ymwdl_days_spec.
+  md_exists wdi_ok_spec ymd_plus_months_spec ymd_plus_years_spec ymwd_exists ymwd_days_spec ymwdl_days_spec
+  (* review round: release build of the constructors *)
+  month_ctor_nc day_ctor_nc day_plus_nc day_minus_days_nc ym_slash_int_nc.
